@@ -363,3 +363,142 @@ func errPolarity(c *core.Ctx, R string, pkgs ...string) {
 	c.Need(R, "error nil-tests examined", n, 10)
 	c.Check(R, "repo/error-returns-on-the-non-nil-edge", token.NoPos, true, keyf("%d error tests examined", n))
 }
+
+// valueAfterErrCheck — `v, err := f()`: a pointer / interface / slice / map /
+// func result is used only where err has been established nil. The repository
+// writes this as `if err != nil { …; return }`; deleting or inverting that
+// guard lets the zero value through (nil stream handed to NewConn, nil writer
+// closed, nil buffer compressed).
+func valueAfterErrCheck(c *core.Ctx, R string, pkgs ...string) {
+	c.Rule(R, "value-after-error-check ("+strings.Join(pkgs, ", ")+"): for every `v…, err := call(…)` with a named error, each later use of a nil-able v (pointer, interface, func, chan — a nil slice or map is usable) in the same function lies on an edge where `err == nil` has been established for that variable (false edge of `err != nil` or true edge of `err == nil`); comparing v with nil, re-assigning it, or passing it on together with err is not a use")
+	in := map[string]bool{}
+	for _, p := range pkgs {
+		in[p] = true
+	}
+	nDefs, nUses := 0, 0
+	for _, u := range c.P.Units {
+		if u.Pkg == nil || u.Pkg.Types == nil || !in[u.Pkg.Types.Name()] {
+			continue
+		}
+		info := u.Info()
+		g := u.Graph()
+		type def struct {
+			stmt ast.Node
+			errO types.Object
+			vals []types.Object
+		}
+		var defs []def
+		ast.Inspect(u.Body, func(x ast.Node) bool {
+			switch s := x.(type) {
+			case *ast.FuncLit:
+				return false
+			case *ast.AssignStmt:
+				if len(s.Lhs) < 2 || len(s.Rhs) != 1 {
+					return true
+				}
+				if _, isCall := ast.Unparen(s.Rhs[0]).(*ast.CallExpr); !isCall {
+					return true
+				}
+				last, ok := s.Lhs[len(s.Lhs)-1].(*ast.Ident)
+				if !ok || last.Name == "_" || !anyErr(u, last) {
+					return true
+				}
+				d := def{stmt: s, errO: core.ObjOf(info, last)}
+				for _, l := range s.Lhs[:len(s.Lhs)-1] {
+					id, ok := l.(*ast.Ident)
+					if !ok || id.Name == "_" {
+						continue
+					}
+					o := core.ObjOf(info, id)
+					if o == nil {
+						continue
+					}
+					switch o.Type().Underlying().(type) {
+					case *types.Pointer, *types.Interface, *types.Signature, *types.Chan:
+						d.vals = append(d.vals, o) // slices and maps are usable when nil
+					}
+				}
+				if d.errO != nil && len(d.vals) > 0 {
+					defs = append(defs, d)
+				}
+			}
+			return true
+		})
+		for _, d := range defs {
+			nDefs++
+			// the test must be one made AFTER this definition (the same err variable is reused by later `:=`)
+			errNil := nilGuard(false, func(x *core.Unit, e ast.Expr) bool {
+				id, ok := ast.Unparen(e).(*ast.Ident)
+				return ok && core.ObjOf(x.Info(), id) == d.errO && id.Pos() > d.stmt.End()
+			})
+			defLoc := g.LocOf(d.stmt)
+			// uses
+			var visit func(n ast.Node, parent ast.Node)
+			seen := map[*ast.Ident]bool{}
+			ast.Inspect(u.Body, func(x ast.Node) bool {
+				if _, isLit := x.(*ast.FuncLit); isLit {
+					return false
+				}
+				// skip nil comparisons and assignments to v
+				switch s := x.(type) {
+				case *ast.BinaryExpr:
+					if core.IsNil(info, s.X) || core.IsNil(info, s.Y) {
+						for _, side := range []ast.Expr{s.X, s.Y} {
+							if id, ok := ast.Unparen(side).(*ast.Ident); ok {
+								seen[id] = true
+							}
+						}
+					}
+				case *ast.AssignStmt:
+					for _, l := range s.Lhs {
+						if id, ok := l.(*ast.Ident); ok {
+							seen[id] = true
+						}
+					}
+				case *ast.ReturnStmt:
+					// `return v, err` forwards both
+					hasErr := false
+					for _, r := range s.Results {
+						if id, ok := ast.Unparen(r).(*ast.Ident); ok && core.ObjOf(info, id) == d.errO {
+							hasErr = true
+						}
+					}
+					if hasErr {
+						for _, r := range s.Results {
+							if id, ok := ast.Unparen(r).(*ast.Ident); ok {
+								seen[id] = true
+							}
+						}
+					}
+				case *ast.Ident:
+					if seen[s] {
+						return true
+					}
+					o := info.Uses[s]
+					if o == nil {
+						return true
+					}
+					isVal := false
+					for _, v := range d.vals {
+						if v == o {
+							isVal = true
+						}
+					}
+					if !isVal || s.Pos() <= d.stmt.End() {
+						return true
+					}
+					loc := g.LocOf(s)
+					if !loc.Valid() || !g.Dominates(defLoc, loc) {
+						return true
+					}
+					nUses++
+					c.Check(R, keyf("%s/use(%s)-after-%s-check", u.Key, s.Name, d.errO.Name()), s.Pos(), g.GuardedBy(loc, errNil), keyf("%s is used where %s has not been established nil", s.Name, d.errO.Name()))
+				}
+				return true
+			})
+			_ = visit
+		}
+	}
+	c.Need(R, "`v, err :=` definitions with a nil-able value", nDefs, 5)
+	c.Need(R, "uses of such values", nUses, 5)
+}
